@@ -25,38 +25,54 @@ ROWSPLIT = "[row split interleaves the cells of a row] "
 
 def row_split_explains(before, after):
     """True when the only change of the reading order is the one the row splitters (split_table_lists,
-    split_big_table_cells) make by construction: the words of one original table row are permuted among themselves,
-    every cell's own words staying in order, everything else in place."""
-    rowid, cellid = {}, {}
-    table, last = 0, None
-    for w, c in before:
-        cell = c.get("outer")                   # the cell of the outermost table (a nested table moves as a whole)
-        if cell is None:
-            if last is not None:
-                table += 1
-            last = None
-            continue
-        if last is not None and cell[0] < last:
-            table += 1
-        last = cell[0]
-        rowid[w] = (table, cell[0])
-        cellid[w] = (table, cell[0], cell[1])
+    split_big_table_cells) make by construction, at any table nesting level: the words of one original table row are
+    permuted among themselves, every cell's own words staying in order (up to a split one level deeper), everything
+    else in place."""
+    path = {w: c.get("cellpath", ()) for w, c in before}
     wb, wa = [w for w, _ in before], [w for w, _ in after]
 
-    def collapse(ws):
-        out = []
-        for w in ws:
-            k = rowid.get(w, w)
-            if not out or out[-1] != k:
-                out.append(k)
-        return out
-
-    if collapse(wb) != collapse(wa):
-        return False
-    for cid in set(cellid.values()):
-        if [w for w in wb if cellid.get(w) == cid] != [w for w in wa if cellid.get(w) == cid]:
+    def explains(xb, xa, level):
+        if xb == xa:
+            return True
+        if sorted(xb) != sorted(xa):
             return False
-    return True
+        # row units of this level in the original order: (table number, row) for words in a table of this level, the word itself otherwise
+        unit, table, last = {}, 0, None
+        for w in xb:
+            p = path[w]
+            if len(p) <= level:
+                if last is not None:
+                    table += 1
+                last = None
+                unit[w] = ("word", w)
+                continue
+            ri = p[level][0]
+            if last is not None and ri < last:
+                table += 1
+            last = ri
+            unit[w] = ("row", table, ri)
+
+        def collapse(ws):
+            out = []
+            for w in ws:
+                if not out or out[-1] != unit[w]:
+                    out.append(unit[w])
+            return out
+
+        if collapse(xb) != collapse(xa):
+            return False
+        for u in set(unit.values()):
+            if u[0] != "row":
+                continue
+            cells = sorted({path[w][level][1] for w in xb if unit[w] == u})
+            for ci in cells:
+                cb = [w for w in xb if unit[w] == u and path[w][level][1] == ci]
+                ca = [w for w in xa if unit[w] == u and path[w][level][1] == ci]
+                if not explains(cb, ca, level + 1):
+                    return False
+        return True
+
+    return explains(wb, wa, 0)
 
 
 def check_text(text):
